@@ -1834,3 +1834,171 @@ Proof.
   intros V H E. pose proof (in_calls_lt _ _ _ H) as Lc. simpl. rewrite V.
   apply proc_close_terminates. rewrite getc_updc_same; auto. exact E.
 Qed.
+
+(* ================================================================================================ *)
+(* 8. after loss / close the next call opens exactly one new connection; the channel stays usable     *)
+
+(* no call is inside Channel.__connect__ *)
+Definition quiet (s : state) : Prop :=
+  waiters s = [] /\ locked s = false /\ forall k, connect_phase (ph (getk s k)) = false.
+
+Lemma inv_live_le1 s : Inv s -> live_connections s <= 1.
+Proof.
+  intros I. unfold live_connections. replace (count conn_live (conns s)) with (count (fun b : bool => b) (lives s)).
+  2: { unfold lives. rewrite count_map. auto. }
+  apply count_unique with (d := false). intros i j _ _ Hi Hj. eapply live_unique; eauto.
+Qed.
+
+Lemma fresh_call_connects s :
+  Inv s -> quiet s -> connected s = false -> hd (OOk, false) (script s) = (OOk, false) ->
+  let n := length (callers s) in let c := length (conns s) in
+  let s' := run [Start; Run n; Resolve n; Run n] s in
+  creates s' = S (creates s) /\ protocol s' = Some c /\ ph (getk s' n) = PReg c /\
+  conn_live (getc s' c) = true /\ live_connections s' = 1 /\ locked s' = false /\
+  In n (calls (getc s' c)) /\ getk s' n = c_ph (PReg c) new_caller /\ getc s' c = n_calls [n] fresh_conn.
+Proof.
+  intros I (QW & QL & QP) Cn Sc n c.
+  (* step 1: Start *)
+  set (s1 := step s Start).
+  assert (G1 : getk s1 n = new_caller) by (unfold s1, getk; simpl; apply nth_app_new).
+  (* step 2: the task's first step: lock free, not connected -> deferred attempt *)
+  set (s2 := step s1 (Run n)).
+  assert (E2 : s2 = setph n (PAttempt (AFlight OOk))
+                  (set_creates (S (creates s)) (set_script (tl (script s))
+                     (set_chst Connecting (set_locked true (deq (IRun n) s1)))))).
+  { unfold s2. simpl step. unfold run_caller. cbv zeta. rewrite getk_deq, G1. simpl ph. simpl cancelp. cbv iota.
+    unfold enter. change (connected (deq (IRun n) s1)) with (connected s). rewrite Cn.
+    unfold lock_free. change (locked (deq (IRun n) s1)) with (locked s). change (waiters (deq (IRun n) s1)) with (waiters s).
+    rewrite QL, QW. simpl. unfold locked_section. cbv zeta.
+    change (connected (set_chst Connecting (set_locked true (deq (IRun n) s1)))) with (connected s). rewrite Cn.
+    simpl negb. cbv iota. unfold attempt.
+    change (script (set_chst Connecting (set_locked true (deq (IRun n) s1)))) with (script s). rewrite Sc. reflexivity. }
+  assert (Ln : n < length (callers s ++ [new_caller])) by (rewrite app_length; simpl; unfold n; lia).
+  assert (G2 : ph (getk s2 n) = PAttempt (AFlight OOk)).
+  { rewrite E2. unfold getk, setph, updk. simpl. rewrite nth_upd_same; auto. }
+  (* step 3: the attempt succeeds: connection c is made *)
+  set (s3 := step s2 (Resolve n)).
+  assert (E3 : s3 = enq (IRun n) (setph n (PAttempt (AOk c)) (set_conns (conns s ++ [fresh_conn]) s2))).
+  { unfold s3. simpl step. rewrite G2. unfold new_conn. rewrite E2. reflexivity. }
+  assert (G3 : getk s3 n = c_ph (PAttempt (AOk c)) new_caller).
+  { rewrite E3, E2. unfold getk, setph, updk. simpl. rewrite !nth_upd_same; auto. unfold n. rewrite nth_app_new. reflexivity.
+    rewrite upd_length. auto. }
+  (* step 4: the owner resumes *)
+  set (s4 := step s3 (Run n)).
+  assert (E4 : s4 = finish_ok n c (deq (IRun n) s3)).
+  { unfold s4. simpl step. unfold run_caller. cbv zeta. rewrite getk_deq, G3. reflexivity. }
+  change (run [Start; Run n; Resolve n; Run n] s) with s4.
+  destruct (finish_ok_spec n c (deq (IRun n) s3)) as (v & P & _ & Q & L & W & Pr & Cr & _ & _ & Lv).
+  rewrite <- E4 in *.
+  assert (C3 : conns (deq (IRun n) s3) = conns s ++ [fresh_conn]) by (rewrite E3; reflexivity).
+  assert (LC : conn_live (getc s4 c) = true).
+  { rewrite live_getc. unfold lives. rewrite Lv, C3, map_app. simpl map.
+    replace c with (length (map conn_live (conns s))) by (rewrite map_length; reflexivity). apply nth_app_new. }
+  assert (Kl : n < length (phases (deq (IRun n) s3))).
+  { apply getk_lt. rewrite getk_deq, G3. discriminate. }
+  pose proof (finish_ok_good n c (deq (IRun n) s3)) as GR. rewrite <- E4 in GR.
+  assert (LC3 : conn_live (getc (deq (IRun n) s3) c) = true).
+  { unfold getc. rewrite C3. unfold c. rewrite nth_app_new. reflexivity. }
+  specialize (GR LC3 Kl). unfold good_ret in GR.
+  assert (PH : ph (getk s4 n) = v).
+  { rewrite getk_ph. fold dph. rewrite P. apply nth_upd_same. exact Kl. }
+  (* the fresh connection is neither closing nor paused: the call registers *)
+  assert (REG : s4 = register n c (release (set_chst Ready (set_protocol (Some c) (deq (IRun n) s3))))).
+  { rewrite E4. unfold finish_ok, ret. rewrite release_protocol. simpl protocol. cbv iota. unfold proceed. cbv zeta.
+    match goal with |- context [closing (getc ?t c)] => assert (GC : getc t c = fresh_conn) end.
+    { unfold getc. rewrite release_conns.
+      change (conns (set_chst Ready (set_protocol (Some c) (deq (IRun n) s3)))) with (conns (deq (IRun n) s3)).
+      rewrite C3. unfold c. apply nth_app_new. }
+    rewrite GC. reflexivity. }
+  assert (PR : ph (getk s4 n) = PReg c).
+  { rewrite REG. unfold register. rewrite getk_ph, phases_setph. fold dph. apply nth_upd_same.
+    change (phases (updc c (fun x => n_calls (calls x ++ [n]) x) (release (set_chst Ready (set_protocol (Some c) (deq (IRun n) s3))))))
+      with (phases (release (set_chst Ready (set_protocol (Some c) (deq (IRun n) s3))))).
+    rewrite phases_release. exact Kl. }
+  assert (Cr4 : creates s4 = S (creates s)). { rewrite Cr, E3, E2. reflexivity. }
+  assert (I4 : Inv s4). { unfold s4, s3, s2, s1. repeat apply step_inv. exact I. }
+  repeat split; auto.
+  - assert (1 <= live_connections s4).
+    { unfold live_connections. apply count_pos with (d := dead_conn) (n := c); auto.
+      destruct (le_lt_dec (length (conns s4)) c); auto. unfold getc in LC. rewrite nth_overflow in LC; auto. discriminate. }
+    pose proof (inv_live_le1 s4 I4). lia.
+  - rewrite REG. unfold register.
+    change (getc (setph n (PReg c) (updc c (fun x => n_calls (calls x ++ [n]) x) (release (set_chst Ready (set_protocol (Some c) (deq (IRun n) s3)))))) c)
+      with (getc (updc c (fun x => n_calls (calls x ++ [n]) x) (release (set_chst Ready (set_protocol (Some c) (deq (IRun n) s3))))) c).
+    rewrite getc_updc_same. simpl. apply in_or_app. right. simpl. auto.
+    rewrite release_conns. change (conns (set_chst Ready (set_protocol (Some c) (deq (IRun n) s3)))) with (conns (deq (IRun n) s3)).
+    rewrite C3, app_length. simpl. unfold c. lia.
+  - rewrite REG. unfold register, getk, setph, updk. simpl callers. rewrite release_callers.
+    change (callers (set_chst Ready (set_protocol (Some c) (deq (IRun n) s3)))) with (callers s3).
+    rewrite nth_upd_same. fold (getk s3 n). rewrite G3. reflexivity.
+    rewrite <- phases_length. exact Kl.
+  - rewrite REG. unfold register.
+    change (getc (setph n (PReg c) (updc c (fun x => n_calls (calls x ++ [n]) x) (release (set_chst Ready (set_protocol (Some c) (deq (IRun n) s3)))))) c)
+      with (getc (updc c (fun x => n_calls (calls x ++ [n]) x) (release (set_chst Ready (set_protocol (Some c) (deq (IRun n) s3))))) c).
+    rewrite getc_updc_same.
+    + unfold getc. rewrite release_conns.
+      change (conns (set_chst Ready (set_protocol (Some c) (deq (IRun n) s3)))) with (conns (deq (IRun n) s3)).
+      rewrite C3. unfold c. rewrite nth_app_new. reflexivity.
+    + rewrite release_conns. change (conns (set_chst Ready (set_protocol (Some c) (deq (IRun n) s3)))) with (conns (deq (IRun n) s3)).
+      rewrite C3, app_length. simpl. unfold c. lia.
+Qed.
+
+Lemma chclose_quiet s : quiet s -> quiet (step s ChClose) /\ connected (step s ChClose) = false /\
+  script (step s ChClose) = script s /\ length (callers (step s ChClose)) = length (callers s) /\
+  length (conns (step s ChClose)) = length (conns s) /\ creates (step s ChClose) = creates s.
+Proof.
+  intros (QW & QL & QP). simpl. destruct (protocol s) eqn:Pr.
+  - destruct (proc_close_spec n s) as (A & B & C & D & E & F & G & H).
+    assert (LN : length (callers (proc_close n s)) = length (callers s)) by (rewrite <- !phases_length; congruence).
+    unfold quiet. simpl. rewrite C, D, G, E, H, upd_length, LN. repeat split; auto.
+    intros k. rewrite getk_ph.
+    change (phases (set_chst Idle (set_protocol None (proc_close n s)))) with (phases (proc_close n s)).
+    rewrite A, <- getk_ph. auto.
+  - unfold quiet, connected. simpl. rewrite Pr. repeat split; auto.
+Qed.
+
+(* ---- (T7) the channel remains usable after close(): a fresh call reconnects (exactly one new
+        connection) and completes *)
+Lemma usable_after_close s :
+  Inv s -> quiet s -> hd (OOk, false) (script s) = (OOk, false) ->
+  let n := length (callers s) in let c := length (conns s) in
+  let s' := run [ChClose; Start; Run n; Resolve n; Run n; Answer n; Run n] s in
+  creates s' = S (creates s) /\ protocol s' = Some c /\ ph (getk s' n) = PEnd (ROk c) /\
+  conn_live (getc s' c) = true.
+Proof.
+  intros I Q Sc n c.
+  destruct (chclose_quiet s Q) as (Q0 & Cn0 & Sc0 & Ln0 & Lc0 & Cr0).
+  set (s0 := step s ChClose) in *.
+  assert (I0 : Inv s0) by (apply step_inv; auto).
+  rewrite <- Sc0 in Sc.
+  pose proof (fresh_call_connects s0 I0 Q0 Cn0 Sc) as F. cbv zeta in F. rewrite Ln0, Lc0 in F. fold n c in F.
+  change (run [ChClose; Start; Run n; Resolve n; Run n; Answer n; Run n] s)
+    with (step (step (run [Start; Run n; Resolve n; Run n] s0) (Answer n)) (Run n)).
+  set (s4 := run [Start; Run n; Resolve n; Run n] s0) in *.
+  destruct F as (Cr & Pr & PH & LC & _ & _ & _ & GK & GC).
+  assert (Lc4 : c < length (conns s4)).
+  { destruct (le_lt_dec (length (conns s4)) c); auto. unfold getc in LC. rewrite nth_overflow in LC; auto. discriminate. }
+  assert (V : valid_open s4 c = true).
+  { unfold valid_open. rewrite GC. apply Nat.ltb_lt in Lc4. rewrite Lc4. reflexivity. }
+  assert (Ln4 : n < length (callers s4)).
+  { rewrite <- phases_length. apply getk_lt. rewrite PH. discriminate. }
+  set (s5 := step s4 (Answer n)).
+  assert (G5 : getk s5 n = c_answered true (c_ph (PReg c) new_caller) /\ conns s5 = conns s4 /\
+               protocol s5 = protocol s4 /\ creates s5 = creates s4).
+  { unfold s5. simpl step. rewrite PH, V, GK. simpl andb. cbv iota.
+    rewrite getk_mark, mark_conns, mark_protocol, mark_creates, getk_updk_flag, Nat.eqb_refl.
+    apply Nat.ltb_lt in Ln4. rewrite Ln4, GK. auto. }
+  destruct G5 as (G5 & C5 & P5 & Cr5).
+  assert (X : step s5 (Run n) = endc n (ROk c) (updc c (fun y => n_calls (remove_nat n (calls y)) y) (deq (IRun n) s5))).
+  { simpl step. unfold run_caller. cbv zeta. rewrite getk_deq, G5. reflexivity. }
+  rewrite X. repeat split.
+  - change (creates s5 = S (creates s)). rewrite Cr5, Cr, Cr0. reflexivity.
+  - change (protocol s5 = Some c). rewrite P5. exact Pr.
+  - rewrite getk_ph. unfold endc. rewrite phases_setph. fold dph. apply nth_upd_same.
+    change (phases (updc c (fun y => n_calls (remove_nat n (calls y)) y) (deq (IRun n) s5))) with (phases s5).
+    apply getk_lt. rewrite G5. discriminate.
+  - rewrite live_getc. rewrite lives_endc, lives_updc_same. 2: intros []; reflexivity.
+    unfold lives. change (conns (deq (IRun n) s5)) with (conns s5). rewrite C5. fold (lives s4).
+    rewrite <- live_getc. exact LC.
+Qed.
+
